@@ -25,3 +25,8 @@ func TestMappedResponseFields(t *testing.T) { pbt.Run(t, RespProp) }
 var SweepProp = pbt.Register(reqcheck.SweepProp("TestCapacitySweep"))
 
 func TestCapacitySweep(t *testing.T) { pbt.Run(t, SweepProp) }
+
+// requiredness and the Write*Field options on fields that have an http source (the request-mapping decision table)
+var ReqProp = pbt.Register(httpcheck.ReqProp("TestMappedRequestFields"))
+
+func TestMappedRequestFields(t *testing.T) { pbt.Run(t, ReqProp) }
